@@ -211,7 +211,7 @@ func parseAll(in *soupIn) *soupOut {
 		defer func() {
 			if e := recover(); e != nil {
 				site := panicSite(string(debug.Stack()))
-				o.Probs = append(o.Probs, "parse-panic:"+entry+":"+site+"\t"+fmt.Sprintf("mode %s: panic %v; src %q", mode, e, clip(in.Src, 300)))
+				o.Probs = append(o.Probs, "parse-panic:"+site+"\t"+fmt.Sprintf("entry %s, mode %s: panic %v; src %q", entry, mode, e, clip(in.Src, 300)))
 			}
 		}()
 		f()
